@@ -123,3 +123,363 @@ theorem decodeFMTP_render (kvs : List (Str × Str)) (hne : kvs ≠ []) (hk : ∀
     exact hrest rest (fun x hx => hk x (by simp [hx])) (fun x hx => hv x (by simp [hx]))
 
 end Rtsp.Sdp
+
+namespace Rtsp.Sdp
+open Rtsp.Facts.Sdp Format
+
+/-! ### `sortKV` on sorted entries -/
+
+theorem sortKV_sorted {l : List (Str × Str)} (h : KeysSorted l) : sortKV l = l := by
+  induction l with
+  | nil => rfl
+  | cons x xs ih =>
+    obtain ⟨k, v⟩ := x
+    have hx := List.pairwise_cons.mp h
+    rw [sortKV, ih hx.2]
+    cases xs with
+    | nil => rfl
+    | cons y ys =>
+      obtain ⟨k', v'⟩ := y
+      have hlt : strLt k k' = true := hx.1 (k', v') (by simp)
+      have hne : k ≠ k' := strLt_ne hlt
+      simp [insertKV, hne, hlt]
+
+/-! ### last character of a rendered fmtp -/
+
+theorem kvText_last {kv : Str × Str} (hv : ValOk kv.2) : ∀ c, (kvText kv).getLast? = some c → isSpace c = false := by
+  intro c hc
+  obtain ⟨k, v⟩ := kv
+  simp only [kvText] at hc
+  cases v with
+  | nil =>
+    simp only [List.getLast?_append, List.getLast?_singleton, Option.some_or, Option.some.injEq] at hc
+    subst hc; decide
+  | cons y ys =>
+    have : (k ++ 61 :: y :: ys).getLast? = (y :: ys).getLast? := by
+      rw [List.getLast?_append, List.getLast?_cons_cons]
+      cases hl : (y :: ys).getLast? with
+      | none => simp at hl
+      | some z => simp
+    rw [this] at hc
+    exact hv.last _ hc
+
+theorem renderFmtp_last (kvs : List (Str × Str)) (hv : ∀ kv ∈ kvs, ValOk kv.2) :
+    ∀ c, (renderFmtp kvs).getLast? = some c → isSpace c = false := by
+  induction kvs with
+  | nil => intro c hc; simp [renderFmtp, joinWith] at hc
+  | cons kv rest ih =>
+    cases rest with
+    | nil =>
+      intro c hc
+      have : renderFmtp [kv] = kvText kv := by simp [renderFmtp, joinWith, kvText]
+      rw [this] at hc
+      exact kvText_last (hv kv (by simp)) c hc
+    | cons x xs =>
+      intro c hc
+      have e : renderFmtp (kv :: x :: xs) = (kvText kv ++ b!"; ") ++ renderFmtp (x :: xs) := by
+        simp [renderFmtp, joinWith_cons_cons, kvText]
+      rw [e, List.getLast?_append] at hc
+      have hne : (renderFmtp (x :: xs)).getLast? ≠ none := by
+        rw [renderFmtp_cons]
+        obtain ⟨k, v⟩ := x
+        cases k <;> simp [kvText]
+      cases hl : (renderFmtp (x :: xs)).getLast? with
+      | none => exact absurd hl hne
+      | some z =>
+        rw [hl] at hc
+        simp only [Option.some_or, Option.some.injEq] at hc
+        subst hc
+        exact ih (fun y hy => hv y (by simp [hy])) z hl
+
+theorem renderFmtp_ne_nil (kv : Str × Str) (rest : List (Str × Str)) : renderFmtp (kv :: rest) ≠ [] := by
+  rw [renderFmtp_cons]
+  obtain ⟨k, v⟩ := kv
+  cases k <;> simp [kvText]
+
+/-! ### `getFormatAttribute` on the attributes `Media.Marshal` writes -/
+
+theorem sp_not_mem_dec (n : Nat) : (32 : UInt8) ∉ dec n := not_mem_dec (by decide) n
+
+theorem trimSpace_ptBody (q : Nat) (body : Str) (hne : body ≠ []) (hlast : ∀ c, body.getLast? = some c → isSpace c = false) :
+    trimSpace (dec q ++ 32 :: body) = dec q ++ 32 :: body := by
+  apply trimSpace_id
+  · intro c hc
+    obtain ⟨x, xs, hd, hx⟩ := dec_head_isDigit q
+    rw [hd] at hc
+    simp only [List.cons_append, List.head?_cons, Option.some.injEq] at hc
+    subst hc
+    exact isDigit_not_space hx
+  · intro c hc
+    have : (dec q ++ 32 :: body).getLast? = body.getLast? := by
+      cases body with
+      | nil => exact absurd rfl hne
+      | cons y ys =>
+        rw [List.getLast?_append, List.getLast?_cons_cons]
+        cases hl : (y :: ys).getLast? with
+        | none => simp at hl
+        | some z => simp
+    rw [this] at hc
+    exact hlast c hc
+
+theorem gfa_hit (pt : Nat) (hpt : pt < 256) (key body : Str) (hne : body ≠ [])
+    (hlast : ∀ c, body.getLast? = some c → isSpace c = false) (rest : List Attr) :
+    getFormatAttribute (⟨key, dec pt ++ 32 :: body⟩ :: rest) pt key = body := by
+  have hp : parseUint attrPtBits (dec pt) = some pt := parseUint_dec (by simpa [attrPtBits] using hpt)
+  simp [getFormatAttribute, trimSpace_ptBody pt body hne hlast, cut_append _ (sp_not_mem_dec pt), hp]
+
+theorem gfa_skip_key (a : Attr) (key : Str) (h : a.key ≠ key) (rest : List Attr) (pt : Nat) :
+    getFormatAttribute (a :: rest) pt key = getFormatAttribute rest pt key := by
+  simp [getFormatAttribute, h]
+
+theorem parseUint_dec_ne {bits q pt : Nat} (h : q ≠ pt) : parseUint bits (dec q) ≠ some pt := by
+  intro e
+  have hne : (dec q).isEmpty = false := by
+    cases hd : dec q with
+    | nil => exact absurd hd (dec_ne_nil q)
+    | cons _ _ => rfl
+  simp only [parseUint, hne, Bool.false_eq_true, if_false, decVal_dec] at e
+  split at e
+  · simp only [Option.some.injEq] at e; exact h e
+  · cases e
+
+theorem gfa_skip_pt (q pt : Nat) (hq : q ≠ pt) (key body : Str) (hne : body ≠ [])
+    (hlast : ∀ c, body.getLast? = some c → isSpace c = false) (rest : List Attr) :
+    getFormatAttribute (⟨key, dec q ++ 32 :: body⟩ :: rest) pt key = getFormatAttribute rest pt key := by
+  have hp : parseUint attrPtBits (dec q) ≠ some pt := parseUint_dec_ne hq
+  simp [getFormatAttribute, trimSpace_ptBody q body hne hlast, cut_append _ (sp_not_mem_dec q), hp]
+
+theorem gfa_post (post : List Attr) (key : Str) (h : ∀ a ∈ post, a.key ≠ key) (pt : Nat) :
+    getFormatAttribute post pt key = [] := by
+  induction post with
+  | nil => rfl
+  | cons a as ih =>
+    rw [gfa_skip_key a key (h a (by simp)), ih (fun x hx => h x (by simp [hx]))]
+
+/-- the body that a format writes after `<pt> ` in its `fmtp` attribute -/
+def fmtpBody (f : Format) : Str := renderFmtp (sortKV f.fmtp)
+
+theorem formatAttrs_eq (f : Format) :
+    formatAttrs f = (if f.rtpmap.isEmpty then [] else [⟨b!"rtpmap", dec f.pt ++ 32 :: f.rtpmap⟩])
+      ++ (if f.fmtp.isEmpty then [] else [⟨b!"fmtp", dec f.pt ++ 32 :: fmtpBody f⟩]) := rfl
+
+theorem fmtpBody_ok {f : Format} (h : FmtTextOk f) (hne : f.fmtp.isEmpty = false) :
+    fmtpBody f ≠ [] ∧ ∀ c, (fmtpBody f).getLast? = some c → isSpace c = false := by
+  unfold fmtpBody
+  rw [sortKV_sorted h.sorted]
+  cases hf : f.fmtp with
+  | nil => rw [hf] at hne; simp at hne
+  | cons kv rest =>
+    refine ⟨renderFmtp_ne_nil kv rest, ?_⟩
+    have := renderFmtp_last f.fmtp h.vals
+    rwa [hf] at this
+
+/-- skipping all the attributes of a format with another payload type -/
+theorem gfa_skip_format (g : Format) (hg : FmtTextOk g) (pt : Nat) (hpt : g.pt ≠ pt) (key : Str) (rest : List Attr) :
+    getFormatAttribute (formatAttrs g ++ rest) pt key = getFormatAttribute rest pt key := by
+  rw [formatAttrs_eq]
+  by_cases hr : g.rtpmap.isEmpty <;> by_cases hf : g.fmtp.isEmpty
+  · simp [hr, hf]
+  · have hb := fmtpBody_ok hg (by simpa using hf)
+    simp only [hr, hf, if_true, Bool.false_eq_true, if_false, List.nil_append, List.singleton_append]
+    by_cases hk : b!"fmtp" = key
+    · subst hk; exact gfa_skip_pt _ _ hpt _ _ hb.1 hb.2 _
+    · exact gfa_skip_key _ _ hk _ _
+  · have hrne : g.rtpmap ≠ [] := by intro e; rw [e] at hr; simp at hr
+    simp only [hr, hf, if_true, Bool.false_eq_true, if_false, List.append_nil, List.singleton_append]
+    by_cases hk : b!"rtpmap" = key
+    · subst hk; exact gfa_skip_pt _ _ hpt _ _ hrne hg.rtpmap_last _
+    · exact gfa_skip_key _ _ hk _ _
+  · have hb := fmtpBody_ok hg (by simpa using hf)
+    have hrne : g.rtpmap ≠ [] := by intro e; rw [e] at hr; simp at hr
+    simp only [hr, hf, Bool.false_eq_true, if_false, List.cons_append, List.nil_append]
+    have step1 : getFormatAttribute (⟨b!"rtpmap", dec g.pt ++ 32 :: g.rtpmap⟩ :: ⟨b!"fmtp", dec g.pt ++ 32 :: fmtpBody g⟩ :: rest) pt key
+        = getFormatAttribute (⟨b!"fmtp", dec g.pt ++ 32 :: fmtpBody g⟩ :: rest) pt key := by
+      by_cases hk : b!"rtpmap" = key
+      · subst hk; exact gfa_skip_pt _ _ hpt _ _ hrne hg.rtpmap_last _
+      · exact gfa_skip_key _ _ hk _ _
+    rw [step1]
+    by_cases hk : b!"fmtp" = key
+    · subst hk; exact gfa_skip_pt _ _ hpt _ _ hb.1 hb.2 _
+    · exact gfa_skip_key _ _ hk _ _
+
+theorem gfa_none (gs : List Format) (hok : ∀ g ∈ gs, FmtTextOk g) (pt : Nat) (hpt : ∀ g ∈ gs, g.pt ≠ pt) (key : Str)
+    (post : List Attr) (hpost : ∀ a ∈ post, a.key ≠ key) :
+    getFormatAttribute (gs.flatMap formatAttrs ++ post) pt key = [] := by
+  induction gs with
+  | nil => simpa using gfa_post post key hpost pt
+  | cons g gs ih =>
+    simp only [List.flatMap_cons, List.append_assoc]
+    rw [gfa_skip_format g (hok g (by simp)) pt (hpt g (by simp)),
+      ih (fun x hx => hok x (by simp [hx])) (fun x hx => hpt x (by simp [hx]))]
+
+/-- **rtpmap lookup**: in the attributes written for a list of formats with distinct payload types,
+the rtpmap found for `f`'s payload type is `f`'s own (empty if `f` writes none). -/
+theorem gfa_rtpmap (fs : List Format) (hok : ∀ g ∈ fs, FmtTextOk g) (hd : fs.Pairwise fun a b => a.pt ≠ b.pt)
+    (post : List Attr) (hpost : ∀ a ∈ post, a.key ≠ b!"rtpmap") (f : Format) (hf : f ∈ fs) :
+    getFormatAttribute (fs.flatMap formatAttrs ++ post) f.pt b!"rtpmap" = f.rtpmap := by
+  induction fs with
+  | nil => simp at hf
+  | cons g gs ih =>
+    have hd' := List.pairwise_cons.mp hd
+    simp only [List.flatMap_cons, List.append_assoc]
+    by_cases hfg : f = g
+    · subst hfg
+      have hfo := hok f (by simp)
+      have hnone := gfa_none gs (fun x hx => hok x (by simp [hx])) f.pt (fun x hx => (hd'.1 x hx).symm) b!"rtpmap" post hpost
+      rw [formatAttrs_eq]
+      by_cases hr : f.rtpmap.isEmpty <;> by_cases hfm : f.fmtp.isEmpty
+      · simp only [hr, hfm, if_true, List.append_nil, List.nil_append]
+        rw [hnone]; exact (List.isEmpty_iff.mp hr).symm
+      · simp only [hr, hfm, if_true, Bool.false_eq_true, if_false, List.nil_append, List.singleton_append]
+        rw [gfa_skip_key _ _ (by simp), hnone]; exact (List.isEmpty_iff.mp hr).symm
+      · have hrne : f.rtpmap ≠ [] := by intro e; rw [e] at hr; simp at hr
+        simp only [hr, hfm, if_true, Bool.false_eq_true, if_false, List.append_nil, List.singleton_append]
+        exact gfa_hit f.pt hfo.pt_lt _ _ hrne hfo.rtpmap_last _
+      · have hrne : f.rtpmap ≠ [] := by intro e; rw [e] at hr; simp at hr
+        simp only [hr, hfm, Bool.false_eq_true, if_false, List.cons_append, List.nil_append]
+        exact gfa_hit f.pt hfo.pt_lt _ _ hrne hfo.rtpmap_last _
+    · have hfgs : f ∈ gs := by
+        simp only [List.mem_cons] at hf
+        rcases hf with rfl | hf
+        · exact absurd rfl hfg
+        · exact hf
+      rw [gfa_skip_format g (hok g (by simp)) f.pt (hd'.1 f hfgs)]
+      exact ih (fun x hx => hok x (by simp [hx])) hd'.2 hfgs
+
+/-- **fmtp lookup** -/
+theorem gfa_fmtp (fs : List Format) (hok : ∀ g ∈ fs, FmtTextOk g) (hd : fs.Pairwise fun a b => a.pt ≠ b.pt)
+    (post : List Attr) (hpost : ∀ a ∈ post, a.key ≠ b!"fmtp") (f : Format) (hf : f ∈ fs) :
+    getFormatAttribute (fs.flatMap formatAttrs ++ post) f.pt b!"fmtp" = if f.fmtp.isEmpty then [] else fmtpBody f := by
+  induction fs with
+  | nil => simp at hf
+  | cons g gs ih =>
+    have hd' := List.pairwise_cons.mp hd
+    simp only [List.flatMap_cons, List.append_assoc]
+    by_cases hfg : f = g
+    · subst hfg
+      have hfo := hok f (by simp)
+      have hnone := gfa_none gs (fun x hx => hok x (by simp [hx])) f.pt (fun x hx => (hd'.1 x hx).symm) b!"fmtp" post hpost
+      rw [formatAttrs_eq]
+      by_cases hr : f.rtpmap.isEmpty <;> by_cases hfm : f.fmtp.isEmpty
+      · simp only [hr, hfm, if_true, List.append_nil, List.nil_append]
+        exact hnone
+      · have hb := fmtpBody_ok hfo (by simpa using hfm)
+        simp only [hr, hfm, if_true, Bool.false_eq_true, if_false, List.nil_append, List.singleton_append]
+        exact gfa_hit f.pt hfo.pt_lt _ _ hb.1 hb.2 _
+      · simp only [hr, hfm, if_true, Bool.false_eq_true, if_false, List.append_nil, List.singleton_append]
+        rw [gfa_skip_key _ _ (by simp)]; exact hnone
+      · have hb := fmtpBody_ok hfo (by simpa using hfm)
+        simp only [hr, hfm, Bool.false_eq_true, if_false, List.cons_append, List.nil_append]
+        rw [gfa_skip_key _ _ (by simp)]
+        exact gfa_hit f.pt hfo.pt_lt _ _ hb.1 hb.2 _
+    · have hfgs : f ∈ gs := by
+        simp only [List.mem_cons] at hf
+        rcases hf with rfl | hf
+        · exact absurd rfl hfg
+        · exact hf
+      rw [gfa_skip_format g (hok g (by simp)) f.pt (hd'.1 f hfgs)]
+      exact ih (fun x hx => hok x (by simp [hx])) hd'.2 hfgs
+
+end Rtsp.Sdp
+
+namespace Rtsp.Sdp
+open Rtsp.Facts.Sdp Format
+
+/-! ### `format.Unmarshal` on a marshalled media -/
+
+theorem isSmartPT_dec (n : Nat) : isSmartPT (dec n) = false := by
+  obtain ⟨x, xs, hd, hx⟩ := dec_head_isDigit n
+  rw [hd]
+  have : x ≠ 115 := by intro e; subst e; revert hx; decide
+  unfold isSmartPT
+  split
+  · rename_i heq
+    simp only [List.cons.injEq] at heq
+    exact absurd heq.1 this
+  · rfl
+
+theorem gfa_skip_pre (pre : List Attr) (key : Str) (h : ∀ a ∈ pre, a.key ≠ key) (rest : List Attr) (pt : Nat) :
+    getFormatAttribute (pre ++ rest) pt key = getFormatAttribute rest pt key := by
+  induction pre with
+  | nil => rfl
+  | cons a as ih =>
+    simp only [List.cons_append]
+    rw [gfa_skip_key a key (h a (by simp)), ih (fun x hx => h x (by simp [hx]))]
+
+/-- the attributes `Media.Marshal` writes before the formats' attributes -/
+def preAttrs (m : Media) : List Attr :=
+  (if m.id.isEmpty then [] else [⟨b!"mid", m.id⟩])
+  ++ (if m.backChannel then [⟨b!"sendonly", []⟩] else [])
+  ++ keyMgmtAttr m.keyMgmt
+  ++ [⟨b!"control", m.control⟩]
+
+def postAttrs (anyBack : Bool) (m : Media) : List Attr :=
+  if !m.backChannel && anyBack then [⟨b!"recvonly", []⟩] else []
+
+theorem marshalMedia_attrs (ab : Bool) (m : Media) :
+    (marshalMedia ab m).attrs = preAttrs m ++ (m.formats.flatMap formatAttrs ++ postAttrs ab m) := by
+  simp [marshalMedia, preAttrs, postAttrs]
+
+theorem preAttrs_keys (m : Media) : ∀ a ∈ preAttrs m, a.key = b!"mid" ∨ a.key = b!"sendonly" ∨ a.key = b!"key-mgmt" ∨ a.key = b!"control" := by
+  intro a ha
+  simp only [preAttrs, keyMgmtAttr, List.mem_append, List.mem_singleton] at ha
+  rcases ha with ((ha | ha) | ha) | ha
+  · split at ha
+    · simp at ha
+    · simp only [List.mem_singleton] at ha; subst ha; simp
+  · split at ha
+    · simp only [List.mem_singleton] at ha; subst ha; simp
+    · simp at ha
+  · split at ha
+    · simp only [List.mem_singleton] at ha; subst ha; simp
+    · simp at ha
+  · subst ha; simp
+
+theorem postAttrs_keys (ab : Bool) (m : Media) : ∀ a ∈ postAttrs ab m, a.key = b!"recvonly" := by
+  intro a ha
+  simp only [postAttrs] at ha
+  split at ha
+  · simp only [List.mem_singleton] at ha; subst ha; rfl
+  · simp at ha
+
+/-- **`format.Unmarshal` on the library's own media description**: for each format of a valid media, looking
+it up by its payload type in what `Media.Marshal` wrote rebuilds the format. -/
+theorem unmarshalFormat_marshal (O : Oracle) (ab : Bool) (m : Media) (hm : ValidMedia O m) (f : Format) (hf : f ∈ m.formats) :
+    unmarshalFormat O (marshalMedia ab m) (dec f.pt) = .ok f := by
+  have hok : ∀ g ∈ m.formats, FmtTextOk g := fun g hg => fmtTextOk (hm.formats_ok g hg)
+  have hfo := hok f hf
+  have hpre_r : ∀ a ∈ preAttrs m, a.key ≠ b!"rtpmap" := by
+    intro a ha; rcases preAttrs_keys m a ha with h | h | h | h <;> (rw [h]; decide)
+  have hpre_f : ∀ a ∈ preAttrs m, a.key ≠ b!"fmtp" := by
+    intro a ha; rcases preAttrs_keys m a ha with h | h | h | h <;> (rw [h]; decide)
+  have hpost_r : ∀ a ∈ postAttrs ab m, a.key ≠ b!"rtpmap" := by
+    intro a ha; rw [postAttrs_keys ab m a ha]; decide
+  have hpost_f : ∀ a ∈ postAttrs ab m, a.key ≠ b!"fmtp" := by
+    intro a ha; rw [postAttrs_keys ab m a ha]; decide
+  have hr : getFormatAttribute (marshalMedia ab m).attrs f.pt b!"rtpmap" = f.rtpmap := by
+    rw [marshalMedia_attrs, gfa_skip_pre _ _ hpre_r]
+    exact gfa_rtpmap m.formats hok hm.pts_distinct _ hpost_r f hf
+  have hfm : decodeFMTP (getFormatAttribute (marshalMedia ab m).attrs f.pt b!"fmtp") = f.fmtp.map fun kv => (toLower kv.1, kv.2) := by
+    rw [marshalMedia_attrs, gfa_skip_pre _ _ hpre_f, gfa_fmtp m.formats hok hm.pts_distinct _ hpost_f f hf]
+    by_cases he : f.fmtp.isEmpty
+    · simp only [he, if_true]
+      rw [List.isEmpty_iff.mp he]; rfl
+    · simp only [he, Bool.false_eq_true, if_false, fmtpBody, sortKV_sorted hfo.sorted]
+      exact decodeFMTP_render f.fmtp (by intro e; rw [e] at he; simp at he) hfo.keys hfo.vals
+  have hpt : parseUint ptBits (dec f.pt) = some f.pt := parseUint_dec (by simpa [ptBits] using hfo.pt_lt)
+  have hty : (marshalMedia ab m).media = m.typ := rfl
+  unfold unmarshalFormat
+  simp only [replaceSmartPayloadType, isSmartPT_dec, Bool.false_eq_true, if_false, hpt, hr, hfm, hty]
+  exact fmt_roundtrip_all O m.typ f (hm.formats_ok f hf)
+
+theorem unmarshalFormats_marshal (O : Oracle) (ab : Bool) (m : Media) (hm : ValidMedia O m) (fs : List Format)
+    (hfs : ∀ f ∈ fs, f ∈ m.formats) :
+    unmarshalFormats O (marshalMedia ab m) (fs.map fun f => dec f.pt) = .ok fs := by
+  induction fs with
+  | nil => rfl
+  | cons f fs ih =>
+    simp only [List.map_cons, unmarshalFormats]
+    rw [unmarshalFormat_marshal O ab m hm f (hfs f (by simp)), ih (fun x hx => hfs x (by simp [hx]))]
+    rfl
+
+end Rtsp.Sdp
